@@ -13,6 +13,8 @@ VERIF = os.path.dirname(os.path.dirname(os.path.abspath(__file__)))
 
 def one_line(meta: dict) -> str:
     t = (meta.get("needs_to_manifest") or "").split("\n")[0]
+    if not t and meta.get("what_fails"):
+        t = meta.get("kind", "regression") + " -- fails again: " + meta["what_fails"][0]
     t = re.sub(r"^Change:\s*", "", t)
     t = t.replace("|", "\\|")
     return t[:170] + ("…" if len(t) > 170 else "")
@@ -21,6 +23,7 @@ def one_line(meta: dict) -> str:
 def main() -> None:
     rows = []
     missed = []
+    stale = []
     names = sorted(os.listdir(os.path.join(VERIF, "seeded")))
     for n in names:
         mp = os.path.join(VERIF, "seeded", n, "meta.json")
@@ -28,17 +31,41 @@ def main() -> None:
             continue
         m = json.load(open(mp))
         rb = m.get("reported_by", {})
+        if m.get("stale"):
+            stale.append(n)
+            rows.append(f"| {n} | {one_line(m)} | *(stale: the patch no longer applies after later `fix:` commits; was reported by {', '.join(sorted(rb)) or '—'})* |")
+            continue
         by = "; ".join(f"**{k}** " + ", ".join(sorted({r.split("rule=")[-1].split(" ")[0] + ":" + r.split("instance=")[-1].split("|")[-1][:40] for r in v.get("reports", [])})[:2]) for k, v in sorted(rb.items()))
         if not rb:
             missed.append(n)
             by = "— *(not decided statically, see below)*"
         rows.append(f"| {n} | {one_line(m)} | {by} |")
     nb = len([d for d in os.listdir(os.path.join(VERIF, "benign")) if os.path.exists(os.path.join(VERIF, "benign", d, "patch.diff"))])
-    r1 = [n for n in names if "-r2" not in n]
-    r2 = [n for n in names if "-r2" in n]
+    import subprocess
+    import tempfile
+
+    def rnd(n):
+        return "regressions" if n.startswith("REGR-") else "round 4" if "-r4" in n else "round 3" if "-r3" in n else "round 2" if "-r2" in n else "round 1"
+
+    cnt = {}
+    for n in names:
+        if os.path.exists(os.path.join(VERIF, "seeded", n, "meta.json")):
+            cnt[rnd(n)] = cnt.get(rnd(n), 0) + 1
+    total = sum(cnt.values())
     out = []
-    out.append(f"Seeded (breaking) changes kept: {len(names)} ({len(r1)} in round 1, {len(r2)} in round 2); reported by at least one check: {len(names) - len(missed)}; not reported: {len(missed)} ({', '.join(missed) or 'none'}).")
-    out.append(f"Benign (behaviour-preserving) refactorings kept: {nb}; every check is silent on every one of them (`tools/sweep.py --benign`).")
+    out.append(f"Seeded (breaking) changes kept: {total} ({', '.join(f'{v} {k}' for k, v in sorted(cnt.items()))}); {len(stale)} of them are stale (cut against an earlier tree, they no longer apply after the later `fix:` commits and are skipped); of the {total - len(stale)} that apply, reported by at least one check: {total - len(stale) - len(missed)}; not reported: {len(missed)} ({', '.join(missed) or 'none'}).")
+    # benign patches that still apply to /repo's HEAD
+    nb_ok = 0
+    wt = tempfile.mkdtemp(prefix="cm_", dir="/tmp")
+    os.rmdir(wt)
+    if subprocess.run(f"git worktree add -q --detach {wt} HEAD", shell=True, cwd="/repo").returncode == 0:
+        for d in sorted(os.listdir(os.path.join(VERIF, "benign"))):
+            pp = os.path.join(VERIF, "benign", d, "patch.diff")
+            if os.path.exists(pp) and subprocess.run(f"git apply --check {pp}", shell=True, cwd=wt, capture_output=True).returncode == 0:
+                nb_ok += 1
+        subprocess.run(f"git worktree remove --force {wt}", shell=True, cwd="/repo")
+        subprocess.run("git worktree prune", shell=True, cwd="/repo")
+    out.append(f"Benign (behaviour-preserving) refactorings kept: {nb}; {nb_ok} still apply to the repaired tree and every check is silent on every one of them (`tools/sweep.py --benign`); the other {nb - nb_ok} are stale and skipped.")
     out.append("")
     out.append("| change | what was changed (first line of the agent's note) | reported by (rule: instance) |")
     out.append("|---|---|---|")
